@@ -34,6 +34,8 @@ def gen_cases(tier, seed):
         if rng.random() < 0.3:
             cfgd["penalty"] = str(rng.choice(["ObjectiveFilter", "LagrangianFilter"]))
         cfgd["rho"] = float(10.0 ** rng.uniform(-3, 0))
+        if rng.random() < 0.25:
+            cfgd.update(C.rare_params(rng, allow_unvalidated=True))
         cfgd["collect_path"] = bool(rng.random() < 0.3)
         case = work.mk_case(fam, [seed, k], cfgd, gopts=({"n": int(rng.integers(1, 6))} if fam in ("QP", "NLP") else {}))
         case["y0"] = "rand" if rng.random() < 0.4 else "none"
